@@ -33,7 +33,8 @@ def coreUn (op : Op) : Bool := op = .neg || op = .inv
 /-- every infix operator of the fragment -/
 def coreInfix : List Op :=
   [.add, .sub, .mul, .mod, .eq, .ne, .lt, .le, .gt, .ge, .is_, .is_not, .and_, .or_,
-   .truediv, .floordiv, .concat_op, .like_op, .not_like_op, .ilike_op, .not_ilike_op]
+   .truediv, .floordiv, .concat_op, .like_op, .not_like_op, .ilike_op, .not_ilike_op,
+   .in_op, .not_in_op, .between_op, .not_between_op]
 
 def corePrefix : List Op := [.neg, .inv]
 
@@ -59,6 +60,47 @@ def likePair (op n : Op) : Bool :=
   (op = .like_op && n = .not_like_op) || (op = .not_like_op && n = .like_op) ||
   (op = .ilike_op && n = .not_ilike_op) || (op = .not_ilike_op && n = .ilike_op)
 
+/-- the root operator (if any) has precedence above `p` -/
+def rootAbove (p : Int) : SaExpr → Bool
+  | .binary op _ _ _ _ _ => decide (p < precOf op)
+  | .clist op _ _ _ _ => decide (p < precOf op)
+  | .unary op _ _ => decide (p < precOf op)
+  | _ => true
+
+mutual
+/-- every operator of the element that is not inside a `Grouping` has precedence above `p`
+    (the ungrouped `lo AND hi` pair of a BETWEEN is no operator of its own) -/
+def above (p : Int) : SaExpr → Bool
+  | .binary op l r _ _ _ => decide (p < precOf op) && above p l && above p r
+  | .clist op cs group _ _ => (!group || decide (p < precOf op)) && aboveList p cs
+  | .unary op e _ => decide (p < precOf op) && above p e
+  | _ => true
+def aboveList (p : Int) : List SaExpr → Bool
+  | [] => true
+  | e :: es => above p e && aboveList p es
+end
+
+/-- `between_op` / `not_between_op` -/
+def btwOp (op : Op) : Bool := op = .between_op || op = .not_between_op
+
+def btwPair (op n : Op) : Bool :=
+  (op = .between_op && n = .not_between_op) || (op = .not_between_op && n = .between_op)
+
+/-- operators of the fragment with a ternary form in the backends' grammars -/
+def ternOp (op : Op) : Bool := likeOp op || btwOp op
+
+/-- `in_op` / `not_in_op` -/
+def inOp (op : Op) : Bool := op = .in_op || op = .not_in_op
+
+/-- the right operand of `x.in_([v₁, …])` / `x.not_in([…])`: a non-empty expanding parameter that
+    carries the operator it is used with -/
+def inRight (op : Op) : SaExpr → Bool
+  | .inlist vs _ eo => !vs.isEmpty && eo = op
+  | _ => false
+
+def inPair (op n : Op) : Bool :=
+  (op = .in_op && n = .not_in_op) || (op = .not_in_op && n = .in_op)
+
 mutual
 /-- the element belongs to the fragment -/
 def Core : SaExpr → Bool
@@ -68,7 +110,9 @@ def Core : SaExpr → Bool
   | .true_ => true
   | .false_ => true
   | .binary op l r _ esc _ =>
-    ((coreBinD op && esc.isNone) || (likeOp op && closedE l && closedE r)) && Core l && Core r
+    Core l &&
+      ((coreBinD op && esc.isNone && Core r) || (likeOp op && closedE l && closedE r && Core r) ||
+       (inOp op && esc.isNone && inRight op r) || (btwOp op && esc.isNone && CoreBtw r))
   | .clist op cs group _ _ => coreList op && group && decide (2 ≤ cs.length) && CoreList cs
   | .unary op e _ => coreUn op && Core e
   | .grouping e => Core e
@@ -82,6 +126,13 @@ def Core : SaExpr → Bool
 def CoreList : List SaExpr → Bool
   | [] => true
   | e :: es => Core e && CoreList es
+/-- the right operand of `x.between(lo, hi)`: the ungrouped pair `lo AND hi` (`_between_impl`
+    passes `group=False`) whose bounds expose only operators with a precedence number above
+    BETWEEN's — **finding `between-bound-ungrouped` is excluded here** -/
+def CoreBtw : SaExpr → Bool
+  | .clist .and_ [lo, hi] false false _ =>
+    Core lo && Core hi && above (precOf .between_op) lo && above (precOf .between_op) hi
+  | _ => false
 end
 
 mutual
@@ -104,17 +155,40 @@ def WGAll : List SaExpr → Bool
   | e :: es => WG e && WGAll es
 end
 
+/-- the four kinds of binary nodes of the fragment: generic (incl. the divisions and
+    concatenation), the LIKE family over closed operands, IN / NOT IN with an expanding list,
+    BETWEEN / NOT BETWEEN with its ungrouped pair of bounds -/
 theorem core_binary {op : Op} {l r : SaExpr} {n : Option Op} {esc : Option String} {ty : Ty}
     (hc : Core (.binary op l r n esc ty) = true) :
-    Core l = true ∧ Core r = true ∧
-      ((coreBinD op = true ∧ esc.isNone = true) ∨
-       (likeOp op = true ∧ closedE l = true ∧ closedE r = true)) := by
+    Core l = true ∧
+      ((coreBinD op = true ∧ esc.isNone = true ∧ Core r = true) ∨
+       (likeOp op = true ∧ closedE l = true ∧ closedE r = true ∧ Core r = true) ∨
+       (inOp op = true ∧ esc.isNone = true ∧ inRight op r = true) ∨
+       (btwOp op = true ∧ esc.isNone = true ∧ CoreBtw r = true)) := by
   simp only [Core, Bool.and_eq_true, Bool.or_eq_true] at hc
-  obtain ⟨⟨h, hl⟩, hr⟩ := hc
-  refine ⟨hl, hr, ?_⟩
-  rcases h with h | h
-  · exact Or.inl h
-  · exact Or.inr ⟨h.1.1, h.1.2, h.2⟩
+  obtain ⟨hl, h⟩ := hc
+  refine ⟨hl, ?_⟩
+  rcases h with ((h | h) | h) | h
+  · exact Or.inl ⟨h.1.1, h.1.2, h.2⟩
+  · exact Or.inr (Or.inl ⟨h.1.1.1, h.1.1.2, h.1.2, h.2⟩)
+  · exact Or.inr (Or.inr (Or.inl ⟨h.1.1, h.1.2, h.2⟩))
+  · exact Or.inr (Or.inr (Or.inr ⟨h.1.1, h.1.2, h.2⟩))
+
+theorem coreBtw_cases {r : SaExpr} (h : CoreBtw r = true) :
+    ∃ lo hi ty, r = .clist .and_ [lo, hi] false false ty ∧ Core lo = true ∧ Core hi = true ∧
+      above (precOf .between_op) lo = true ∧ above (precOf .between_op) hi = true := by
+  unfold CoreBtw at h
+  split at h
+  · rename_i lo hi ty
+    simp only [Bool.and_eq_true] at h
+    exact ⟨lo, hi, ty, rfl, h.1.1.1, h.1.1.2, h.1.2, h.2⟩
+  · cases h
+
+theorem btwOp_mem {op : Op} (h : btwOp op = true) : op ∈ coreInfix := by
+  cases op <;> simp [btwOp] at h <;> simp [coreInfix]
+
+theorem inOp_mem {op : Op} (h : inOp op = true) : op ∈ coreInfix := by
+  cases op <;> simp [inOp] at h <;> simp [coreInfix]
 
 theorem likeOp_mem {op : Op} (h : likeOp op = true) : op ∈ coreInfix := by
   cases op <;> simp [likeOp] at h <;> simp [coreInfix]
@@ -122,31 +196,22 @@ theorem likeOp_mem {op : Op} (h : likeOp op = true) : op ∈ coreInfix := by
 /-- the operator of a binary of the fragment is one of its infix operators -/
 theorem core_binary_mem {op : Op} {l r : SaExpr} {n : Option Op} {esc : Option String} {ty : Ty}
     (hc : Core (.binary op l r n esc ty) = true) : op ∈ coreInfix := by
-  obtain ⟨_, _, h⟩ := core_binary hc
-  rcases h with h | h
-  · rcases (by simpa [coreBinD] using h.1 : coreBin op = true ∨ coreDiv op = true) with h' | h'
+  obtain ⟨_, h⟩ := core_binary hc
+  rcases h with ⟨hop, _, _⟩ | ⟨hl, _, _, _⟩ | ⟨hi, _, _⟩ | ⟨hb, _, _⟩
+  · rcases (by simpa [coreBinD] using hop : coreBin op = true ∨ coreDiv op = true) with h' | h'
     · cases op <;> simp [coreBin] at h' <;> simp [coreInfix]
     · cases op <;> simp [coreDiv] at h' <;> simp [coreInfix]
-  · exact likeOp_mem h.1
+  · exact likeOp_mem hl
+  · exact inOp_mem hi
+  · exact btwOp_mem hb
 
-/-- the root operator (if any) has precedence above `p` -/
-def rootAbove (p : Int) : SaExpr → Bool
-  | .binary op _ _ _ _ _ => decide (p < precOf op)
-  | .clist op _ _ _ _ => decide (p < precOf op)
-  | .unary op _ _ => decide (p < precOf op)
-  | _ => true
-
-mutual
-/-- every operator of the element that is not inside a `Grouping` has precedence above `p` -/
-def above (p : Int) : SaExpr → Bool
-  | .binary op l r _ _ _ => decide (p < precOf op) && above p l && above p r
-  | .clist op cs _ _ _ => decide (p < precOf op) && aboveList p cs
-  | .unary op e _ => decide (p < precOf op) && above p e
-  | _ => true
-def aboveList (p : Int) : List SaExpr → Bool
-  | [] => true
-  | e :: es => above p e && aboveList p es
-end
+theorem inRight_cases {op : Op} {r : SaExpr} (h : inRight op r = true) :
+    ∃ vs ty, r = .inlist vs ty op ∧ vs ≠ [] := by
+  cases r <;> simp [inRight] at h
+  rename_i vs ty eo
+  obtain ⟨h1, h2⟩ := h
+  subst h2
+  exact ⟨vs, ty, rfl, h1⟩
 
 /-! ### the table facts the proof needs, as one decidable statement per grammar -/
 
@@ -167,6 +232,20 @@ def likeOps : List Op := [.like_op, .not_like_op, .ilike_op, .not_ilike_op]
 /-- the LIKE family in `g`: every member has the optional `ESCAPE` continuation, `ESCAPE` is no
     infix operator of its own, and ILIKE / NOT ILIKE sit on the level of LIKE / NOT LIKE (every
     dialect but PostgreSQL spells `ilike` as `lower(x) LIKE lower(y)`) -/
+def btwOps : List Op := [.between_op, .not_between_op]
+
+/-- BETWEEN / NOT BETWEEN in `g`: the mandatory `AND` continuation; `AND` itself stops the
+    first bound; every operator of the fragment with a higher precedence number binds tighter
+    than the level the second bound is read at -/
+def btwCompat (g : Grammar) : Bool :=
+  btwOps.all fun o =>
+    match g.infixBp (symOf o), g.ternBp (symOf o) with
+    | some (_, rbp), some (.and_, bp3, true) =>
+      stops g rbp (some .and_) &&
+      (coreInfix.all fun o' => !decide (precOf .between_op < precOf o') || decide (bp3 ≤ infBase g o')) &&
+      (corePrefix.all fun u => !decide (precOf .between_op < precOf u) || decide (bp3 ≤ preBase g u))
+    | _, _ => false
+
 def likeCompat (g : Grammar) : Bool :=
   (likeOps.all fun o => match g.ternBp (symOf o) with
     | some (.escape, _, false) => true
@@ -190,7 +269,7 @@ def sepCompat (g : Grammar) : Bool :=
     -- SQLite spells true division `l / (r + 0.0)`: whatever is left bare under `/` binds
     -- tighter than the `+` it is put under
     decide (precOf .add ≤ precOf .truediv) &&
-    likeCompat g
+    likeCompat g && btwCompat g
 
 /-- in `g`, every infix operator of the fragment with a higher precedence number than `concat_op`
     binds tighter than `||` on both sides: true for PostgreSQL, false for SQLite (where `||`
@@ -207,7 +286,7 @@ def coreCompat (g : Grammar) : Bool :=
   sepCompat g &&
   -- every symbol is an operator of the grammar, without ternary form
   (coreInfix.all fun o => (g.infixBp (symOf o)).isSome &&
-      (likeOp o || (g.ternBp (symOf o)).isNone) && (precedence o).isSome) &&
+      (ternOp o || (g.ternBp (symOf o)).isNone) && (precedence o).isSome) &&
   (corePrefix.all fun u => (g.prefixBp (symOf u)).isSome && (precedence u).isSome) &&
   -- a child whose precedence number is higher binds tighter than the parent, on both sides
   (coreInfix.all fun p => match g.infixBp (symOf p) with
@@ -364,9 +443,61 @@ theorem like_of_bool (g : Grammar) (h : likeCompat g = true) : LikeFacts g := by
     cases m <;> cases fl <;> simp [hq] at this
     exact ⟨b3, rfl⟩
 
+structure BtwFacts (g : Grammar) : Prop where
+  tern : ∀ o, btwOp o = true → ∃ bp3, g.ternBp (symOf o) = some (.and_, bp3, true)
+  stop : ∀ o, btwOp o = true → ∀ lbp rbp, g.infixBp (symOf o) = some (lbp, rbp) →
+    stops g rbp (some .and_) = true
+  hi_inf : ∀ o, btwOp o = true → ∀ bp3, g.ternBp (symOf o) = some (.and_, bp3, true) →
+    ∀ o' ∈ coreInfix, precOf .between_op < precOf o' → bp3 ≤ infBase g o'
+  hi_pre : ∀ o, btwOp o = true → ∀ bp3, g.ternBp (symOf o) = some (.and_, bp3, true) →
+    ∀ u ∈ corePrefix, precOf .between_op < precOf u → bp3 ≤ preBase g u
+
+theorem btw_of_bool (g : Grammar) (h : btwCompat g = true) : BtwFacts g := by
+  simp only [btwCompat, List.all_eq_true] at h
+  have key : ∀ o, btwOp o = true → ∃ lbp rbp bp3, g.infixBp (symOf o) = some (lbp, rbp) ∧
+      g.ternBp (symOf o) = some (.and_, bp3, true) ∧ stops g rbp (some .and_) = true ∧
+      (∀ o' ∈ coreInfix, precOf .between_op < precOf o' → bp3 ≤ infBase g o') ∧
+      (∀ u ∈ corePrefix, precOf .between_op < precOf u → bp3 ≤ preBase g u) := by
+    intro o ho
+    have hm : o ∈ btwOps := by cases o <;> simp [btwOp] at ho <;> simp [btwOps]
+    have := h o hm
+    cases hb : g.infixBp (symOf o) with
+    | none => simp [hb] at this
+    | some pr =>
+      obtain ⟨lbp, rbp⟩ := pr
+      cases hq : g.ternBp (symOf o) with
+      | none => simp [hb, hq] at this
+      | some q =>
+        obtain ⟨m, b3, fl⟩ := q
+        cases m <;> cases fl <;> simp [hb, hq] at this
+        refine ⟨lbp, rbp, b3, rfl, rfl, this.1.1, ?_, ?_⟩
+        · intro o' ho' hlt
+          have := this.1.2 o' ho'
+          rcases this with h' | h'
+          · omega
+          · exact h'
+        · intro u hu hlt
+          have := this.2 u hu
+          rcases this with h' | h'
+          · omega
+          · exact h'
+  refine ⟨?_, ?_, ?_, ?_⟩
+  · intro o ho
+    obtain ⟨_, _, bp3, _, hq, _⟩ := key o ho
+    exact ⟨bp3, hq⟩
+  · intro o ho lbp rbp hb
+    obtain ⟨l', r', _, hb', _, hs, _⟩ := key o ho
+    rw [hb] at hb'; cases hb'; exact hs
+  · intro o ho bp3 hq
+    obtain ⟨_, _, b3, _, hq', _, h1, _⟩ := key o ho
+    rw [hq] at hq'; cases hq'; exact h1
+  · intro o ho bp3 hq
+    obtain ⟨_, _, b3, _, hq', _, _, h2⟩ := key o ho
+    rw [hq] at hq'; cases hq'; exact h2
+
 structure Compat (g : Grammar) : Prop where
   inf_known : ∀ o ∈ coreInfix, ∃ lbp rbp, g.infixBp (symOf o) = some (lbp, rbp) ∧
-    (likeOp o = false → g.ternBp (symOf o) = none) ∧ (precedence o).isSome = true
+    (ternOp o = false → g.ternBp (symOf o) = none) ∧ (precedence o).isSome = true
   pre_known : ∀ u ∈ corePrefix, ∃ bp, g.prefixBp (symOf u) = some bp ∧ (precedence u).isSome = true
   inf_inf : ∀ p ∈ coreInfix, p ≠ .concat_op → ∀ o ∈ coreInfix, ∀ lbp rbp,
     g.infixBp (symOf p) = some (lbp, rbp) →
@@ -385,21 +516,22 @@ structure Compat (g : Grammar) : Prop where
   bottom : (∀ o ∈ coreInfix, opSmallest - 1 < precOf o) ∧ (∀ u ∈ corePrefix, opSmallest - 1 < precOf u)
   add_div : precOf .add ≤ precOf .truediv
   like : LikeFacts g
+  btw : BtwFacts g
 
 theorem sep_of_bool (g : Grammar) (h : sepCompat g = true) :
     (∃ sl sr, sl < sr ∧
       (∀ s, s.isSep = true → g.infixBp s = some (sl, sr) ∧ g.ternBp s = none) ∧
       (∀ o ∈ coreInfix, sr ≤ infBase g o) ∧ (∀ u ∈ corePrefix, sr ≤ preBase g u)) ∧
     ((∀ o ∈ coreInfix, opSmallest - 1 < precOf o) ∧ (∀ u ∈ corePrefix, opSmallest - 1 < precOf u)) ∧
-    precOf .add ≤ precOf .truediv ∧ LikeFacts g := by
+    precOf .add ≤ precOf .truediv ∧ LikeFacts g ∧ BtwFacts g := by
   unfold sepCompat at h
   cases hb : g.infixBp .comma with
   | none => simp [hb] at h
   | some p =>
     obtain ⟨sl, sr⟩ := p
     simp only [hb, Bool.and_eq_true, List.all_eq_true, decide_eq_true_eq, beq_iff_eq] at h
-    obtain ⟨⟨⟨⟨⟨⟨⟨h1, h2⟩, h3⟩, h4⟩, h5⟩, h6⟩, h7⟩, h8⟩ := h
-    refine ⟨⟨sl, sr, h1, ?_, h3, h4⟩, ⟨h5, h6⟩, h7, like_of_bool g h8⟩
+    obtain ⟨⟨⟨⟨⟨⟨⟨⟨h1, h2⟩, h3⟩, h4⟩, h5⟩, h6⟩, h7⟩, h8⟩, h9⟩ := h
+    refine ⟨⟨sl, sr, h1, ?_, h3, h4⟩, ⟨h5, h6⟩, h7, like_of_bool g h8, btw_of_bool g h9⟩
     intro s hs
     have hm : s ∈ sepSyms := by cases s <;> simp [Sym.isSep] at hs <;> simp [sepSyms]
     have := h2 s hm
@@ -421,10 +553,10 @@ theorem compat_of_bool (g : Grammar) (h : coreCompat g = true) : Compat g := by
   have hsep : sepCompat g = true := by
     simp only [coreCompat, Bool.and_eq_true] at h
     exact h.1.1.1.1.1.1.1
-  obtain ⟨hS, hB, hAD, hLK⟩ := sep_of_bool g hsep
+  obtain ⟨hS, hB, hAD, hLK, hBT⟩ := sep_of_bool g hsep
   simp only [coreCompat, Bool.and_eq_true, List.all_eq_true] at h
   obtain ⟨⟨⟨⟨⟨⟨⟨_, h1⟩, h2⟩, h3⟩, h4⟩, h5⟩, h6⟩, h7⟩ := h
-  refine ⟨?_, ?_, ?_, ?_, ?_, ?_, ?_, ?_, ?_, hS, hB, hAD, hLK⟩
+  refine ⟨?_, ?_, ?_, ?_, ?_, ?_, ?_, ?_, ?_, hS, hB, hAD, hLK, hBT⟩
   · intro o ho
     have := h1 o ho
     try simp only [Bool.and_eq_true] at this
@@ -563,6 +695,52 @@ theorem rootAbove_of_rootOp {p : Int} {c : SaExpr} :
   intro h
   cases c <;> simp [rootAbove] <;> first | exact h _ rfl | skip
 
+/-- regenerated table: BETWEEN and NOT BETWEEN share a precedence number -/
+theorem btw_prec : precOf .not_between_op = precOf .between_op := by decide
+
+theorem btwOp_prec {op : Op} (h : btwOp op = true) : precOf op = precOf .between_op := by
+  cases op <;> simp [btwOp] at h
+  · rfl
+  · exact btw_prec
+
+mutual
+theorem above_mono {p q : Int} (h : p ≤ q) : ∀ e : SaExpr, above q e = true → above p e = true
+  | .binary op l r _ _ _, ha => by
+    simp only [above, Bool.and_eq_true, decide_eq_true_eq] at ha ⊢
+    exact ⟨⟨by omega, above_mono h l ha.1.2⟩, above_mono h r ha.2⟩
+  | .clist op cs gr _ _, ha => by
+    simp only [above, Bool.and_eq_true, Bool.or_eq_true, Bool.not_eq_true', decide_eq_true_eq] at ha ⊢
+    refine ⟨?_, aboveList_mono h cs ha.2⟩
+    rcases ha.1 with h1 | h1
+    · exact Or.inl h1
+    · exact Or.inr (by omega)
+  | .unary op e _, ha => by
+    simp only [above, Bool.and_eq_true, decide_eq_true_eq] at ha ⊢
+    exact ⟨by omega, above_mono h e ha.2⟩
+  | .col _ _, _ => rfl
+  | .bind _ _, _ => rfl
+  | .null, _ => rfl
+  | .true_, _ => rfl
+  | .false_, _ => rfl
+  | .asbool _ _ _, _ => rfl
+  | .grouping _, _ => rfl
+  | .case_ _ _ _ _, _ => rfl
+  | .cast _ _, _ => rfl
+  | .func _ _ _, _ => rfl
+  | .subq _ _, _ => rfl
+  | .inlist _ _ _, _ => rfl
+  | .inrows _ _ _, _ => rfl
+  | .tuple_ _, _ => rfl
+  | .litcol _ _, _ => rfl
+  | .ilikeOperand _, _ => rfl
+  | .absent, _ => rfl
+theorem aboveList_mono {p q : Int} (h : p ≤ q) : ∀ es : List SaExpr, aboveList q es = true → aboveList p es = true
+  | [], _ => rfl
+  | e :: es, ha => by
+    simp only [aboveList, Bool.and_eq_true] at ha ⊢
+    exact ⟨above_mono h e ha.1, aboveList_mono h es ha.2⟩
+end
+
 mutual
 theorem above_of_WG (hprec : ∀ o, o ∈ coreInfix ∨ o ∈ corePrefix → (precedence o).isSome = true) :
     ∀ (e : SaExpr) (p : Int), Core e = true → WG e = true → rootAbove p e = true → above p e = true
@@ -574,7 +752,7 @@ theorem above_of_WG (hprec : ∀ o, o ∈ coreInfix ∨ o ∈ corePrefix → (pr
   | .grouping _, _, _, _, _ => rfl
   | .binary op l r n esc ty, p, hc, hw, hr => by
     have hmem := core_binary_mem hc
-    obtain ⟨hcl, hcr, _⟩ := core_binary hc
+    obtain ⟨hcl, hk⟩ := core_binary hc
     simp only [WG, Bool.and_eq_true, Bool.not_eq_true'] at hw
     obtain ⟨⟨⟨hgl, hgr⟩, hwl⟩, hwr⟩ := hw
     simp only [rootAbove, decide_eq_true_eq] at hr
@@ -586,11 +764,22 @@ theorem above_of_WG (hprec : ∀ o, o ∈ coreInfix ∨ o ∈ corePrefix → (pr
       intro cop hcop
       have := precOf_le_of_not_precedent hs (not_precedent_of_not_wouldGroup hcl hcop hgl)
       omega
-    · apply above_of_WG hprec r p hcr hwr
-      apply rootAbove_of_rootOp
-      intro cop hcop
-      have := precOf_le_of_not_precedent hs (not_precedent_of_not_wouldGroup hcr hcop hgr)
-      omega
+    · have key : ∀ hcr : Core r = true, above p r = true := by
+        intro hcr
+        apply above_of_WG hprec r p hcr hwr
+        apply rootAbove_of_rootOp
+        intro cop hcop
+        have := precOf_le_of_not_precedent hs (not_precedent_of_not_wouldGroup hcr hcop hgr)
+        omega
+      rcases hk with ⟨_, _, hcr⟩ | ⟨_, _, _, hcr⟩ | ⟨_, _, hir⟩ | ⟨hbo, _, hbr⟩
+      · exact key hcr
+      · exact key hcr
+      · obtain ⟨vs, ty', he, _⟩ := inRight_cases hir
+        subst he; rfl
+      · obtain ⟨lo, hi, ty', he, _, _, alo, ahi⟩ := coreBtw_cases hbr
+        subst he
+        have hle : p ≤ precOf .between_op := by rw [← btwOp_prec hbo]; omega
+        simp [above, aboveList, above_mono hle lo alo, above_mono hle hi ahi]
   | .unary op e ty, p, hc, hw, hr => by
     simp only [Core, Bool.and_eq_true] at hc
     simp only [WG, Bool.and_eq_true, Bool.not_eq_true'] at hw
@@ -608,8 +797,8 @@ theorem above_of_WG (hprec : ∀ o, o ∈ coreInfix ∨ o ∈ corePrefix → (pr
     simp only [WG] at hw
     simp only [rootAbove, decide_eq_true_eq] at hr
     have hs := hprec op (Or.inl (coreList_mem hc.1.1.1))
-    simp only [above, Bool.and_eq_true, decide_eq_true_eq]
-    exact ⟨hr, aboveList_of_WG hprec op cs p hs hc.2 hw hr⟩
+    simp only [above, Bool.and_eq_true, Bool.or_eq_true, decide_eq_true_eq]
+    exact ⟨Or.inr hr, aboveList_of_WG hprec op cs p hs hc.2 hw hr⟩
   | .asbool _ _ _, _, hc, _, _ => by simp [Core] at hc
   | .case_ _ _ _ _, _, _, _, _ => rfl
   | .cast _ _, _, _, _, _ => rfl
@@ -789,6 +978,36 @@ theorem render_like (d : Dialect) (lb : Bool) (op : Op) (l r : SaExpr) (n : Opti
       show (if d = .postgresql then _ else _) = _
       simp [hd, likeSym, likeWrap]
 
+/-- `x IN (v₁, …)` / `(x NOT IN (v₁, …))` for a non-empty list -/
+theorem render_inNode (d : Dialect) (lb : Bool) (op : Op) (l : SaExpr) (vs : List Lit) (lty : Ty)
+    (n : Option Op) (esc : Option String) (ty : Ty) (h : inOp op = true) (hne : vs ≠ []) :
+    render d lb (.binary op l (.inlist vs lty op) n esc ty) =
+      (if op = .in_op then G.inf .in_ (opText .in_op) (render d lb l) (G.br .paren (litListG d lb vs))
+       else G.br .paren
+        (G.inf .notIn (opText .not_in_op) (render d lb l) (G.br .paren (litListG d lb vs)))) := by
+  have he : vs.isEmpty = false := by cases vs <;> simp at hne ⊢
+  cases op <;> simp [inOp] at h
+  · rw [render_in_op]; simp [inG, he]
+  · rw [render_not_in_op]; simp [inG, he]
+
+/-- `x BETWEEN lo AND hi` / `x NOT BETWEEN lo AND hi`: one ternary node -/
+theorem render_btw (d : Dialect) (lb : Bool) (op : Op) (l lo hi : SaExpr) (cty : Ty)
+    (n : Option Op) (esc : Option String) (ty : Ty) (h : btwOp op = true) :
+    ∃ t, render d lb (.binary op l (.clist .and_ [lo, hi] false false cty) n esc ty) =
+      G.tern (symOf op) t .and_ (opText .and_) (render d lb l) (render d lb lo) (render d lb hi) := by
+  have hr : render d lb (.clist .and_ [lo, hi] false false cty) =
+      G.inf .and_ (opText .and_) (render d lb lo) (render d lb hi) := by
+    rw [render_clist d lb .and_ _ _ _ _ rfl]
+    rfl
+  cases op <;> simp [btwOp] at h
+  · refine ⟨" BETWEEN ", ?_⟩
+    show betweenG .between " BETWEEN " (render d lb l) (render d lb (.clist .and_ [lo, hi] false false cty)) = _
+    rw [hr]; rfl
+  · refine ⟨" NOT BETWEEN ", ?_⟩
+    show betweenG .notBetween " NOT BETWEEN " (render d lb l)
+      (render d lb (.clist .and_ [lo, hi] false false cty)) = _
+    rw [hr]; rfl
+
 theorem closedG_likeWrap (d : Dialect) (op : Op) (x : G) (h : closedG x = true) :
     closedG (likeWrap d op x) = true := by
   unfold likeWrap
@@ -828,16 +1047,30 @@ theorem ok_likeG (g : Grammar) (d : Dialect) (s : Sym) (t : String) (L R : G)
       allExp_closed _ cR, stops, hesc, tight]
 
 theorem likeSym_symOf (d : Dialect) (op : Op) (h : likeOp op = true) :
-    ∃ o ∈ coreInfix, likeSym d op = symOf o := by
+    ∃ o ∈ coreInfix, btwOp o = false ∧ likeSym d op = symOf o := by
   cases op <;> simp [likeOp] at h
-  · exact ⟨.like_op, by simp [coreInfix], rfl⟩
-  · exact ⟨.not_like_op, by simp [coreInfix], rfl⟩
+  · exact ⟨.like_op, by simp [coreInfix], rfl, rfl⟩
+  · exact ⟨.not_like_op, by simp [coreInfix], rfl, rfl⟩
   · by_cases hd : d = .postgresql
-    · exact ⟨.ilike_op, by simp [coreInfix], by simp [likeSym, hd, symOf]⟩
-    · exact ⟨.like_op, by simp [coreInfix], by simp [likeSym, hd, symOf]⟩
+    · exact ⟨.ilike_op, by simp [coreInfix], rfl, by simp [likeSym, hd, symOf]⟩
+    · exact ⟨.like_op, by simp [coreInfix], rfl, by simp [likeSym, hd, symOf]⟩
   · by_cases hd : d = .postgresql
-    · exact ⟨.not_ilike_op, by simp [coreInfix], by simp [likeSym, hd, symOf]⟩
-    · exact ⟨.not_like_op, by simp [coreInfix], by simp [likeSym, hd, symOf]⟩
+    · exact ⟨.not_ilike_op, by simp [coreInfix], rfl, by simp [likeSym, hd, symOf]⟩
+    · exact ⟨.not_like_op, by simp [coreInfix], rfl, by simp [likeSym, hd, symOf]⟩
+
+theorem coreBinD_not_btw {op : Op} (h : coreBinD op = true) : btwOp op = false := by
+  rcases coreBinD_cases h with h | h
+  · cases op <;> simp [coreBin] at h <;> rfl
+  · cases op <;> simp [coreDiv] at h <;> rfl
+
+theorem coreList_not_btw {op : Op} (h : coreList op = true) : btwOp op = false := by
+  cases op <;> simp [coreList] at h <;> rfl
+
+theorem inOp_not_btw {op : Op} (h : inOp op = true) : btwOp op = false := by
+  cases op <;> simp [inOp] at h <;> rfl
+
+theorem btwOp_not_like {op : Op} (h : btwOp op = true) : likeOp op = false := by
+  cases op <;> simp [btwOp] at h <;> rfl
 
 theorem coreBinD_not_like {op : Op} (h : coreBinD op = true) : likeOp op = false := by
   rcases coreBinD_cases h with h | h
@@ -945,11 +1178,35 @@ theorem tight_render (g : Grammar) (C : Compat g) (d : Dialect) (k : Nat) (p : I
   | .false_, _, _ => rfl
   | .grouping e, _, _ => by rw [render_grouping]; rfl
   | .binary op l r n esc ty, hc, ha => by
-    obtain ⟨hcl, hcr, hk⟩ := core_binary hc
+    obtain ⟨hcl, hk⟩ := core_binary hc
     simp only [above, Bool.and_eq_true, decide_eq_true_eq] at ha
     obtain ⟨⟨hp, hal⟩, har⟩ := ha
-    rcases hk with ⟨hop, _⟩ | ⟨hlk, cl, cr⟩
-    case inr =>
+    rcases hk with ⟨hop, _, hcr⟩ | ⟨hlk, cl, cr, hcr⟩ | ⟨hin, _, hir⟩ | ⟨hbo, _, hbr⟩
+    case inr.inr.inr =>
+      obtain ⟨lo, hi, cty, he, hclo, hchi, _, _⟩ := coreBtw_cases hbr
+      subst he
+      obtain ⟨lbp, rbp, hb, _, _⟩ := C.inf_known op (btwOp_mem hbo)
+      obtain ⟨bp3, hq⟩ := C.btw.tern op hbo
+      obtain ⟨h1, h2, h3⟩ := infBase_le3 hb hq (H op (btwOp_mem hbo) hp)
+      obtain ⟨t, heq⟩ := render_btw d true op l lo hi cty n esc ty hbo
+      simp only [above, aboveList, Bool.and_eq_true, Bool.not_false, Bool.true_or, Bool.true_and,
+        Bool.and_true] at har
+      rw [heq]
+      simp [tight, hb, hq, h1, h2, h3, tight_render g C d k p H H' l hcl hal,
+        tight_render g C d k p H H' lo hclo har.1, tight_render g C d k p H H' hi hchi har.2]
+    case inr.inr.inl =>
+      obtain ⟨vs, lty, he, hne⟩ := inRight_cases hir
+      subst he
+      rw [render_inNode d true op l vs lty n esc ty hin hne]
+      split
+      · rename_i ho
+        subst ho
+        obtain ⟨lbp, rbp, hb, _, _⟩ := C.inf_known .in_op (inOp_mem hin)
+        obtain ⟨h1, h2⟩ := infBase_le hb (H .in_op (inOp_mem hin) hp)
+        have hb2 : g.infixBp .in_ = some (lbp, rbp) := hb
+        simp [tight, hb2, h1, h2, tight_render g C d k p H H' l hcl hal]
+      · rfl
+    case inr.inl =>
       obtain ⟨lbp, rbp, bp3, hb, hq, hb', hq', _⟩ := like_facts g C d op hlk
       obtain ⟨h1, h2, h3⟩ := infBase_le3 hb' hq' (H op (likeOp_mem hlk) hp)
       obtain ⟨t, heq⟩ := render_like d true op l r n esc ty hlk
@@ -979,7 +1236,8 @@ theorem tight_render (g : Grammar) (C : Compat g) (d : Dialect) (k : Nat) (p : I
   | .clist op cs gr bl ty, hc, ha => by
     simp only [Core, Bool.and_eq_true, decide_eq_true_eq] at hc
     obtain ⟨⟨⟨hop, _⟩, hlen⟩, hcs⟩ := hc
-    simp only [above, Bool.and_eq_true, decide_eq_true_eq] at ha
+    rename_i hgr
+    simp only [above, hgr, Bool.not_true, Bool.false_or, Bool.and_eq_true, decide_eq_true_eq] at ha
     obtain ⟨lbp, rbp, hb, _, _⟩ := C.inf_known op (coreList_mem hop)
     obtain ⟨h1, h2⟩ := infBase_le hb (H op (coreList_mem hop) ha.1)
     by_cases hcf : catFn d op = true
@@ -1025,7 +1283,8 @@ end
 mutual
 /-- every operator symbol the fragment renders satisfies `P` ⇒ so does every exposed symbol -/
 theorem allExp_render (d : Dialect) (P : Sym → Bool)
-    (hP : ∀ o ∈ coreInfix, P (symOf o) = true) (hP' : ∀ u ∈ corePrefix, P (symOf u) = true) :
+    (hP : ∀ o ∈ coreInfix, btwOp o = false → P (symOf o) = true)
+    (hP' : ∀ u ∈ corePrefix, P (symOf u) = true) :
     ∀ e : SaExpr, Core e = true → allExp P (render d true e) = true
   | .col _ _, _ => rfl
   | .bind _ _, _ => rfl
@@ -1034,13 +1293,30 @@ theorem allExp_render (d : Dialect) (P : Sym → Bool)
   | .false_, _ => rfl
   | .grouping e, _ => by rw [render_grouping]; rfl
   | .binary op l r n esc ty, hc => by
-    obtain ⟨hcl, hcr, hk⟩ := core_binary hc
-    rcases hk with ⟨hop, _⟩ | ⟨hlk, cl, cr⟩
-    case inr =>
-      obtain ⟨t, heq⟩ := render_like d true op l r n esc ty hlk
-      obtain ⟨o, ho, hso⟩ := likeSym_symOf d op hlk
+    obtain ⟨hcl, hk⟩ := core_binary hc
+    rcases hk with ⟨hop, _, hcr⟩ | ⟨hlk, cl, cr, hcr⟩ | ⟨hin, _, hir⟩ | ⟨hbo, _, hbr⟩
+    case inr.inr.inr =>
+      obtain ⟨lo, hi, cty, he, hclo, hchi, _, _⟩ := coreBtw_cases hbr
+      subst he
+      obtain ⟨t, heq⟩ := render_btw d true op l lo hi cty n esc ty hbo
       rw [heq]
-      exact allExp_likeG P d _ t _ _ esc (by rw [hso]; exact hP o ho)
+      simp [allExp, allExp_render d P hP hP' l hcl, allExp_render d P hP hP' lo hclo,
+        allExp_render d P hP hP' hi hchi]
+    case inr.inr.inl =>
+      obtain ⟨vs, lty, he, hne⟩ := inRight_cases hir
+      subst he
+      rw [render_inNode d true op l vs lty n esc ty hin hne]
+      split
+      · rename_i ho
+        subst ho
+        have hPs : P .in_ = true := hP .in_op (inOp_mem hin) rfl
+        simp [allExp, hPs, allExp_render d P hP hP' l hcl]
+      · rfl
+    case inr.inl =>
+      obtain ⟨t, heq⟩ := render_like d true op l r n esc ty hlk
+      obtain ⟨o, ho, hnb, hso⟩ := likeSym_symOf d op hlk
+      rw [heq]
+      exact allExp_likeG P d _ t _ _ esc (by rw [hso]; exact hP o ho hnb)
         (closedG_likeWrap _ _ _ (closedG_render d l hcl (closedE_none cl)))
         (closedG_likeWrap _ _ _ (closedG_render d r hcr (closedE_none cr)))
     rcases coreBinD_cases hop with hop' | hdiv
@@ -1048,8 +1324,9 @@ theorem allExp_render (d : Dialect) (P : Sym → Bool)
       · rw [render_catFn_bin d true op l r n esc ty hcf]; rfl
       · obtain ⟨txt, heq⟩ := render_coreBin d true op l r n esc ty hop' (by simpa using hcf)
         rw [heq]
-        simp [allExp, hP op (coreBin_mem hop'), allExp_render d P hP hP' l hcl, allExp_render d P hP hP' r hcr]
-    · have hs := hP op (coreDiv_mem hdiv)
+        simp [allExp, hP op (coreBin_mem hop') (coreBinD_not_btw hop), allExp_render d P hP hP' l hcl,
+          allExp_render d P hP hP' r hcr]
+    · have hs := hP op (coreDiv_mem hdiv) (coreBinD_not_btw hop)
       rw [symOf_div hdiv] at hs
       exact allExp_div P hs (render_coreDiv d true op l r n esc ty hdiv)
         (allExp_render d P hP hP' l hcl) (allExp_render d P hP hP' r hcr)
@@ -1069,7 +1346,7 @@ theorem allExp_render (d : Dialect) (P : Sym → Bool)
       | cons x xs =>
         simp only [chain]
         rw [hcs'] at hall
-        exact allExp_chainFrom P _ _ (hP op (coreList_mem hop)) xs x (hall x (by simp))
+        exact allExp_chainFrom P _ _ (hP op (coreList_mem hop) (coreList_not_btw hop)) xs x (hall x (by simp))
           (fun y hy => hall y (by simp [hy]))
   | .asbool _ _ _, hc => by simp [Core] at hc
   | .case_ v ws e ty, _ => by rw [render_case]; exact allExp_caseG P _ _ _
@@ -1093,7 +1370,8 @@ theorem allExp_render (d : Dialect) (P : Sym → Bool)
   | .absent, hc => by simp [Core] at hc
 
 theorem allExp_renderList (d : Dialect) (P : Sym → Bool)
-    (hP : ∀ o ∈ coreInfix, P (symOf o) = true) (hP' : ∀ u ∈ corePrefix, P (symOf u) = true) :
+    (hP : ∀ o ∈ coreInfix, btwOp o = false → P (symOf o) = true)
+    (hP' : ∀ u ∈ corePrefix, P (symOf u) = true) :
     ∀ cs : List SaExpr, CoreList cs = true → ∀ x ∈ renderList d true cs, allExp P x = true
   | [], _ => by intro x hx; simp [renderList_nil] at hx
   | c :: cs, hc => by
@@ -1130,9 +1408,11 @@ theorem rootIs_render_of_rootOp (d : Dialect) (op : Op) (c : SaExpr) (hc : Core 
   cases c with
   | binary op' l r n esc ty =>
     simp only [rootOp, Option.some.injEq] at hr; subst hr
-    obtain ⟨_, _, hk⟩ := core_binary hc
-    rcases hk with ⟨hop, _⟩ | ⟨hlk, _, _⟩
-    case inr => cases op' <;> simp [likeOp] at hlk <;> simp [symOf, G.assocSym] at hna
+    obtain ⟨_, hk⟩ := core_binary hc
+    rcases hk with ⟨hop, _, _⟩ | ⟨hlk, _, _, _⟩ | ⟨hin, _, _⟩ | ⟨hbo, _, _⟩
+    case inr.inl => cases op' <;> simp [likeOp] at hlk <;> simp [symOf, G.assocSym] at hna
+    case inr.inr.inl => cases op' <;> simp [inOp] at hin <;> simp [symOf, G.assocSym] at hna
+    case inr.inr.inr => cases op' <;> simp [btwOp] at hbo <;> simp [symOf, G.assocSym] at hna
     rcases coreBinD_cases hop with hop' | hdiv
     · obtain ⟨txt, heq⟩ := render_coreBin d true op' l r n esc ty hop' hcf
       rw [heq]; simp [rootIs]
@@ -1292,13 +1572,13 @@ theorem child_under_prefix (g : Grammar) (C : Compat g) (d : Dialect) (op : Op) 
         (fun v hv h => by have := C.pre_pre op hu v hv h; omega) c hc hab
 
 theorem notMid_core (g : Grammar) (C : Compat g) (f : Option Sym) (hf : f ≠ some .escape) :
-    (∀ o ∈ coreInfix, notMidOf g f (symOf o) = true) := by
-  intro o ho
+    (∀ o ∈ coreInfix, btwOp o = false → notMidOf g f (symOf o) = true) := by
+  intro o ho hnb
   obtain ⟨_, _, _, hq, _⟩ := C.inf_known o ho
   by_cases hl : likeOp o = true
   · obtain ⟨bp3, ht⟩ := C.like.tern o hl
     simp [notMidOf, ht, hf]
-  · simp [notMidOf, hq (by simpa using hl)]
+  · simp [notMidOf, hq (by simp [ternOp, hnb]; simpa using hl)]
 
 /-- prefix symbols have no ternary form in the modelled grammars: stated as a hypothesis -/
 def prefixNoTern (g : Grammar) : Prop := ∀ u ∈ corePrefix, g.ternBp (symOf u) = none
@@ -1437,6 +1717,22 @@ theorem ok_castG {g : Grammar} {sl sr : Nat} (F : SepFacts g sl sr) (name : Opti
     cases grp with
     | true => simpa [ok] using hx.1
     | false => simpa using hx.1
+
+theorem ok_litList (g : Grammar) {sl sr : Nat} (F : SepFacts g sl sr) (d : Dialect) (lb : Bool)
+    (vs : List Lit) : ok g (litListG d lb vs) = true := by
+  unfold litListG
+  apply ok_chain_comma F
+  intro x hx
+  simp only [List.mem_map] at hx
+  obtain ⟨v, _, hv⟩ := hx
+  subst hv
+  exact ⟨rfl, rfl, fun _ _ => rfl⟩
+
+theorem inOp_not_like {op : Op} (h : inOp op = true) : likeOp op = false := by
+  cases op <;> simp [inOp] at h <;> rfl
+
+theorem inOp_ne_concat {op : Op} (h : inOp op = true) : op ≠ .concat_op := by
+  cases op <;> simp [inOp] at h <;> simp
 
 theorem rootOp_mem {c : SaExpr} {cop : Op} (hc : Core c = true) (h : rootOp c = some cop) :
     cop ∈ coreInfix ∨ cop ∈ corePrefix := by
@@ -1586,14 +1882,93 @@ theorem ok_render (g : Grammar) (C : Compat g) (hpt : prefixNoTern g) (d : Diale
     exact ok_render g C hpt d e (by simpa [Core] using hc) (by simpa [WG] using hw)
       (csh_sub hs (by simp [ConcatSafe]))
   | .binary op l r n esc ty, hc, hw, hs => by
-    obtain ⟨hcl, hcr, hk⟩ := core_binary hc
+    obtain ⟨hcl, hk⟩ := core_binary hc
     simp only [WG, Bool.and_eq_true, Bool.not_eq_true'] at hw
     obtain ⟨⟨⟨hgl, hgr⟩, hwl⟩, hwr⟩ := hw
     obtain ⟨hsl, hsr, hcat⟩ := csh_binary hs
     have okl := ok_render g C hpt d l hcl hwl hsl
-    have okr := ok_render g C hpt d r hcr hwr hsr
-    rcases hk with ⟨hop, _⟩ | ⟨hlk, cl, cr⟩
-    case inr =>
+    rcases hk with ⟨hop, _, hcr⟩ | ⟨hlk, cl, cr, hcr⟩ | ⟨hin, _, hir⟩ | ⟨hbo, _, hbr⟩
+    case inr.inr.inr =>
+      -- `x BETWEEN lo AND hi` / `x NOT BETWEEN lo AND hi`
+      obtain ⟨lo, hi', cty, he, hclo, hchi, alo, ahi⟩ := coreBtw_cases hbr
+      subst he
+      have hi := btwOp_mem hbo
+      obtain ⟨lbp, rbp, hb, _, _⟩ := C.inf_known op hi
+      obtain ⟨bp3, hq⟩ := C.btw.tern op hbo
+      have hnc : op ≠ .concat_op := by cases op <;> simp [btwOp] at hbo <;> simp
+      have hpo := btwOp_prec hbo
+      simp only [WG, WGList, Bool.and_eq_true, Bool.not_eq_true', Bool.and_true] at hwr
+      obtain ⟨⟨_, hwlo⟩, ⟨_, hwhi⟩⟩ := hwr
+      have hsl2 : CSHL g d [lo, hi'] := csh_subl hsr (by simp [ConcatSafe])
+      obtain ⟨hslo, hsr2⟩ := cshl_cons hsl2
+      obtain ⟨hshi, _⟩ := cshl_cons hsr2
+      have oklo := ok_render g C hpt d lo hclo hwlo hslo
+      have okhi := ok_render g C hpt d hi' hchi hwhi hshi
+      have chl := child_under_infix g C d op hi lbp rbp hb l hcl hwl hgl (Or.inl hnc)
+      have ha : G.assocSym (symOf op) = false := by
+        cases op <;> simp [btwOp] at hbo <;> rfl
+      have hnn : naturalSelfPrecedent op = false := by
+        cases hh : naturalSelfPrecedent op with
+        | false => rfl
+        | true => have := (C.nsp_assoc op hi hh).1; rw [ha] at this; cases this
+      have tl : tight g (lbp + 1) (render d true l) = true := by
+        rcases chl with h | h
+        · rw [hnn] at h; cases h.1
+        · exact h.1
+      have nml := allExp_render d (notMidOf g (some (symOf op)))
+        (notMid_core g C _ (by simp [symOf_ne_escape]))
+        (fun u hu => by simp [notMidOf, hpt u hu]) l hcl
+      have tlo : tight g rbp (render d true lo) = true :=
+        tight_render g C d rbp (precOf .between_op)
+          (fun o ho h => (C.inf_inf op hi hnc o ho lbp rbp hb (by rw [hpo]; exact h)).2)
+          (fun u hu h => (C.inf_pre op hi u hu lbp rbp hb (by rw [hpo]; exact h)).2) lo hclo alo
+      have nmlo := allExp_render d (notMidOf g (some .and_)) (notMid_core g C _ (by simp))
+        (fun u hu => by simp [notMidOf, hpt u hu]) lo hclo
+      have thi : tight g bp3 (render d true hi') = true :=
+        tight_render g C d bp3 (precOf .between_op)
+          (fun o ho h => C.btw.hi_inf op hbo bp3 hq o ho h)
+          (fun u hu h => C.btw.hi_pre op hbo bp3 hq u hu h) hi' hchi ahi
+      have hst := C.btw.stop op hbo lbp rbp hb
+      obtain ⟨t, heq⟩ := render_btw d true op l lo hi' cty n esc ty hbo
+      rw [heq]
+      simp [ok, hb, hq, okl, oklo, okhi, tl, nml, tlo, nmlo, hst, thi]
+    case inr.inr.inl =>
+      -- `x IN (v₁, …)` / `(x NOT IN (v₁, …))`
+      obtain ⟨vs, lty, he, hne⟩ := inRight_cases hir
+      subst he
+      have hi := inOp_mem hin
+      obtain ⟨lbp, rbp, hb, hq', _⟩ := C.inf_known op hi
+      have hq := hq' (by simp [ternOp, inOp_not_like hin, inOp_not_btw hin])
+      obtain ⟨sl, sr, hlt, hbp, _, _⟩ := C.sep
+      have F : SepFacts g sl sr := ⟨hlt, hbp⟩
+      have chl := child_under_infix g C d op hi lbp rbp hb l hcl hwl hgl (Or.inl (inOp_ne_concat hin))
+      have nml := allExp_render d (notMidOf g (some (symOf op))) (notMid_core g C _ (by simp [symOf_ne_escape]))
+        (fun u hu => by simp [notMidOf, hpt u hu]) l hcl
+      have ha : G.assocSym (symOf op) = false := by
+        cases op <;> simp [inOp] at hin <;> rfl
+      have hnn : naturalSelfPrecedent op = false := by
+        cases hh : naturalSelfPrecedent op with
+        | false => rfl
+        | true => have := (C.nsp_assoc op hi hh).1; rw [ha] at this; cases this
+      have tl : tight g (lbp + 1) (render d true l) = true := by
+        rcases chl with h | h
+        · rw [hnn] at h; cases h.1
+        · exact h.1
+      have okL := ok_litList g F d true vs
+      rw [render_inNode d true op l vs lty n esc ty hin hne]
+      cases op <;> simp [inOp] at hin
+      · have hb2 : g.infixBp .in_ = some (lbp, rbp) := hb
+        have hq2 : g.ternBp .in_ = none := hq
+        have ha2 : G.assocSym .in_ = false := rfl
+        have nm2 : allExp (notMidOf g (some .in_)) (render d true l) = true := nml
+        simp [ok, hb2, ha2, hq2, okl, okL, tl, nm2, tight]
+      · have hb2 : g.infixBp .notIn = some (lbp, rbp) := hb
+        have hq2 : g.ternBp .notIn = none := hq
+        have ha2 : G.assocSym .notIn = false := rfl
+        have nm2 : allExp (notMidOf g (some .notIn)) (render d true l) = true := nml
+        simp [ok, hb2, ha2, hq2, okl, okL, tl, nm2, tight]
+    case inr.inl =>
+      have okr := ok_render g C hpt d r hcr hwr hsr
       -- the LIKE family over closed operands
       obtain ⟨lbp, rbp, bp3, hb, hq, _, _, ha⟩ := like_facts g C d op hlk
       obtain ⟨t, heq⟩ := render_like d true op l r n esc ty hlk
@@ -1602,9 +1977,10 @@ theorem ok_render (g : Grammar) (C : Compat g) (hpt : prefixNoTern g) (d : Diale
         (closedG_likeWrap _ _ _ (closedG_render d l hcl (closedE_none cl)))
         (closedG_likeWrap _ _ _ (closedG_render d r hcr (closedE_none cr)))
         (ok_likeWrap g d op _ okl) (ok_likeWrap g d op _ okr)
+    have okr := ok_render g C hpt d r hcr hwr hsr
     have hi := coreBinD_mem hop
     obtain ⟨lbp, rbp, hb, hq', _⟩ := C.inf_known op hi
-    have hq := hq' (coreBinD_not_like hop)
+    have hq := hq' (by simp [ternOp, coreBinD_not_like hop, coreBinD_not_btw hop])
     obtain ⟨sl, sr, hlt, hbp, hsi, hsp⟩ := C.sep
     have F : SepFacts g sl sr := ⟨hlt, hbp⟩
     by_cases hcf : catFn d op = true
@@ -1733,7 +2109,8 @@ theorem ok_render (g : Grammar) (C : Compat g) (hpt : prefixNoTern g) (d : Diale
       simp only [chain]
       rw [hcs'] at hall
       obtain ⟨hox, hcx⟩ := hall x (by simp)
-      exact ok_chainFrom g _ _ lbp rbp hb ha hlt (hq (coreList_not_like hop)) xs x hox hcx
+      exact ok_chainFrom g _ _ lbp rbp hb ha hlt
+        (hq (by simp [ternOp, coreList_not_like hop, coreList_not_btw hop])) xs x hox hcx
         (fun y hy => hall y (by simp [hy]))
   | .asbool _ _ _, hc, _, _ => by simp [Core] at hc
   | .subq _ _, _, _, _ => rfl
@@ -1987,12 +2364,23 @@ theorem lower_core : ∀ e : SaExpr, Core e = true → lower e = e
     simp only [lower]
     rw [lower_core e (by simpa [Core] using hc)]
   | .binary op l r n esc ty, hc => by
-    obtain ⟨hcl, hcr, hk⟩ := core_binary hc
+    obtain ⟨hcl, hk⟩ := core_binary hc
     have hso : strOpKind op = none := by
-      rcases hk with ⟨hop, _⟩ | ⟨hlk, _, _⟩
+      rcases hk with ⟨hop, _, _⟩ | ⟨hlk, _, _, _⟩ | ⟨hin, _, _⟩ | ⟨hbo, _, _⟩
       · exact strOpKind_coreD hop
       · cases op <;> simp [likeOp] at hlk <;> rfl
-    simp only [lower, hso, lower_core l hcl, lower_core r hcr]
+      · cases op <;> simp [inOp] at hin <;> rfl
+      · cases op <;> simp [btwOp] at hbo <;> rfl
+    have hlr : lower r = r := by
+      rcases hk with ⟨_, _, hcr⟩ | ⟨_, _, _, hcr⟩ | ⟨_, _, hir⟩ | ⟨_, _, hbr⟩
+      · exact lower_core r hcr
+      · exact lower_core r hcr
+      · obtain ⟨vs, lty, he, _⟩ := inRight_cases hir
+        subst he; rfl
+      · obtain ⟨lo, hi, cty, he, hclo, hchi, _, _⟩ := coreBtw_cases hbr
+        subst he
+        simp only [lower, lowerList, lower_core lo hclo, lower_core hi hchi]
+    simp only [lower, hso, lower_core l hcl, hlr]
   | .unary op e ty, hc => by
     simp only [Core, Bool.and_eq_true] at hc
     simp only [lower, lower_core e hc.2]
